@@ -60,6 +60,10 @@ package xlsx
 // running total of grid cells is within maxWorkbookCells
 //@ func (*Reader) parseWorksheets results (err)
 //@   property C18, C02
+// the part a sheet is read from is the TARGET of its relationship: an absolute target ("/xl/worksheets/s.xml") is that
+// package path, a relative one is relative to xl/
+//@   callsite getFileContent#1(p) requires absolute_target_is_the_package_path: has(r.sheetRels, sheetRef.RID) && r.sheetRels[sheetRef.RID] != "" && strings.HasPrefix(r.sheetRels[sheetRef.RID], "/") ==> p == strings.TrimPrefix(r.sheetRels[sheetRef.RID], "/")
+//@   callsite getFileContent#1(p) requires relative_target_is_relative_to_xl: has(r.sheetRels, sheetRef.RID) && r.sheetRels[sheetRef.RID] != "" && !strings.HasPrefix(r.sheetRels[sheetRef.RID], "/") && !strings.HasPrefix(r.sheetRels[sheetRef.RID], "xl/") ==> p == strings.TrimPrefix("xl/" + r.sheetRels[sheetRef.RID], "/")
 //@   ensures workbook_unchanged: r.workbook == old(r.workbook)
 //@   ensures count: !err ==> len(r.sheets) <= len(r.workbook.Sheets.Sheet) && len(r.sheets) > 0
 //@   ensures workbook_order: !err ==> forall a int, b int :: {r.sheets[a], r.sheets[b]} 0 <= a && a < b && b < len(r.sheets) ==> r.sheets[a].Index < r.sheets[b].Index
